@@ -254,6 +254,23 @@ def c10_cases(tier):
                     return "two schema values share one variant"
                 return None
             yield case, oracle
+    # the same through both schema front-ends, with deprecated values (servers still send them)
+    import vxbounded
+    dvals = ["ACTIVE", ("LEGACY", ""), "where", ("OLD", "gone")]
+    model = {"enums": {"E": dvals}, "objects": {"Query": {"fields": [("e", "E")]}}, "query": "Query"}
+    for (ext, text) in (("graphql", vxbounded.render_sdl(model)), ("json", vxbounded.render_json(model))):
+        case = {"schema": text, "schema_ext": ext, "query": "query Q { e }", "options": {"mode": "cli"}}
+
+        def oracle2(res, ext=ext):
+            if res["exit"] != 0 or not res["out"] or not res["out"].get("ok"):
+                return "generation failed for an enum with deprecated values (%s schema)" % ext
+            t = norm(res["out"]["tokens"])
+            ser = sorted(w for (_, w) in re.findall(r'E::([A-Za-z0-9_#]+)=>"([^"]*)"', t))
+            want = sorted(v if isinstance(v, str) else v[0] for v in dvals)
+            if ser != want:
+                return "enum E read from the %s schema has variants for %s, the schema values are %s (deprecated values are still sent by servers)" % (ext, ser, want)
+            return None
+        yield case, oracle2
 
 
 C06_SCHEMA = """
@@ -487,6 +504,8 @@ def c12_cases(tier):
         "input NodeFilter { owner: OwnerFilter edge: EdgeFilter } input EdgeFilter { label: LabelFilter node: NodeFilter } input OwnerFilter { viaEdge: EdgeFilter } input LabelFilter { onNode: NodeFilter }",
         "input A { x: Int b: B c: C } input B { c: C } input C { a: A b: B }",
         "input A { b: B } input B { c: C } input C { d: D } input D { b: B }",
+        "input A { title: String and: [A!] or: [A!] not: A }",
+        "input A { bs: [B!] b: B } input B { as: [A] a: A }",
     ]
     for g in graphs:
         case = {"schema": g + " type Query { f(a: A): Int }", "query": "query Q($a: A) { f(a: $a) }", "options": {"mode": "cli"}}
@@ -635,9 +654,12 @@ def c02_cases(tier):
     ]
     known = set("Option Vec Box String bool i64 f64 u8 Self str super crate std serde Serialize Deserialize graphql_client".split())
     for q in queries:
-        for mod in (None, "crate::scalars", "rust-normalization"):
+        for mod in (None, "crate::scalars", "rust-normalization", "same-derives"):
             opts = {"mode": "cli"}
-            if mod == "rust-normalization":
+            if mod == "same-derives":
+                opts["response_derives"] = "Debug, PartialEq"
+                opts["variables_derives"] = "Debug, PartialEq"
+            elif mod == "rust-normalization":
                 opts["normalization"] = "rust"
             elif mod:
                 opts["custom_scalars_module"] = mod
@@ -670,6 +692,10 @@ def c02_cases(tier):
                     for em in re.finditer(r"pubenum[A-Za-z0-9_]+\{([^{}]*)\}", t):
                         for v in re.findall(r"\(([^()]*)\)", re.sub(r"#\[[^\]]*\]", "", em.group(1))):
                             mentioned |= set(re.findall(r"[A-Za-z_][A-Za-z0-9_]*", v))
+                    for dl in re.findall(r"#\[derive\(([^)]*)\)\]", t):
+                        items = [x for x in dl.split(",") if x]
+                        if len(set(items)) != len(items):
+                            return "module %s derives a trait twice: #[derive(%s)] (conflicting implementations, E0119) for `%s` with options %s" % (mname, dl, q[:60], mod)
                     cyc = _by_value_cycle(t)
                     if cyc:
                         return "module %s: the types %s contain each other by value (infinite size, rustc E0072) for `%s`" % (mname, cyc, q[:80])
